@@ -4,6 +4,7 @@ import Zed.Model.ZsonJson
 import Zed.Proofs.ZsonQuote
 import Zed.Proofs.ZsonRoundtrip3
 import Zed.Proofs.ZsonJson
+import Zed.Proofs.ZsonNamedTop
 /-!
   C02 — ZSON text round trip is the identity; JSON is a subset.
 
@@ -203,6 +204,32 @@ example :
       (.cons (.map (.cons (.prim [107]) (.set .nil) .nil)) (.cons (.enum 1) .nil)))
     plainTy t = true ∧ wfTy t = true ∧ wfVal t v = true ∧ bareEmpty v = false ∧ rtOK t v = true := by
   decide
+
+/- Named types, first step (the general statement with typedef scopes is tied by correspondence
+   only): a value of a named type `n = u` over a plain type `u`, at the first occurrence of the
+   name (per-value scope, or the name not yet seen in the stream, and not persisted): it is
+   written `value (=n)` when `u` is self-describing and `value (n=type)` otherwise, it reads
+   back as itself, **and the analyzer's name table receives exactly the binding the formatter's
+   typedef table receives** (the coupling invariant of the stream scope).  Guards: the name is
+   a legal type name; `u` is not an enum (`named-enum-value`), the value is not an empty
+   container (`empty-container-undecorated`) and gets no decorator of its own
+   (`named-partial-union-container`). -/
+theorem zson_roundtrip_value_named_top_partial (fst : FState) (a0 : AState) (n : Name) (u : Ty) (v : Val)
+    (hok : nameOK n = true) (hp : plainTy u = true) (hw : wfTy u = true)
+    (hv : wfVal u v = true) (hn : v.isNull = false) (hb : bareEmpty v = false)
+    (hod : noOwnDeco u v = true) (hen : enumSyms u = none) (hfst : fst.hasName (.named n u) = false) :
+    (fmtTop fst (.named n u) (.named v)).1 = fst.saveType n (.named n u) ∧
+    analyzeTop a0 (fmtTop fst (.named n u) (.named v)).2 =
+      .ok (aPush a0 n (.named n u), (.named n u, .named v)) :=
+  named_top fst a0 n u v hok hp hw hv hn hb hod hen hfst
+
+example :
+    let u : Ty := .record (.cons [97] (.prim 8) (.cons [98] (.array (.prim 25)) .nil))
+    let v : Val := .record (.cons (.prim [49]) (.cons (.array (.cons (.prim [120]) .nil)) .nil))
+    nameOK [112, 111, 114, 116] = true ∧ plainTy u = true ∧ wfTy u = true ∧ wfVal u v = true ∧
+      v.isNull = false ∧ bareEmpty v = false ∧ noOwnDeco u v = true ∧ enumSyms u = none ∧
+      ({} : FState).hasName (.named [112, 111, 114, 116] u) = false ∧
+      rtOK (.named [112, 111, 114, 116] u) (.named v) = true := by decide
 
 /-- an empty container as a whole value is written `[]` with no decorator and read back as an
     empty array of nulls (`formatValueAndDecorate` passes `null = false` to `decorate`). -/
